@@ -54,16 +54,16 @@ def g_test(r, axis, names):
         if x < 0.5:
             return ['*']
         if x < 0.8:
-            return ['name', r.choice(['p1', 'p2', 'xml', 'd']), None]
+            return ['name', r.choice(['p1', 'p2', 'p3', 'xml', 'd']), None]
         return ['node']
     if x < 0.45:
         return ['name', r.choice(names), None]
     if x < 0.55:
-        return ['name', r.choice(names), r.choice(['p1', 'p2', 'd'])]
+        return ['name', r.choice(names), r.choice(['p1', 'p2', 'p3', 'd'])]
     if x < 0.70:
         return ['*']
     if x < 0.75:
-        return ['pfx*', r.choice(['p1', 'p2', 'd'])]
+        return ['pfx*', r.choice(['p1', 'p1', 'p2', 'p3', 'd'])]
     if x < 0.87:
         return ['node']
     if x < 0.93:
